@@ -364,8 +364,9 @@ Proof.
   - exists j0, prim. split; [rewrite nth_error_set_nth_other by exact E; exact N | exact R].
 Qed.
 
-Definition sent_obs (o : obs) : nat := match o with OSent | ORefused => 1 | _ => 0 end.
-Definition created_obs (o : obs) : nat := match o with OSent => 1 | _ => 0 end.
+Definition sent_obs (o : obs) : nat := match o with OSent | ORefused | OLost _ => 1 | _ => 0 end.
+(* a request whose answer is lost has been registered: the remote job exists *)
+Definition created_obs (o : obs) : nat := match o with OSent | OLost _ => 1 | _ => 0 end.
 Definition is_exec (e : ev) : bool := match e with EExec _ _ _ _ => true | _ => false end.
 
 Theorem step_inv s e : inv s -> inv (fst (step s e)) /\ s_pf (fst (step s e)) = s_pf s.
@@ -411,8 +412,19 @@ Proof.
   - destruct (create_job _ _ _ _ _ _); cbn; repeat split; lia.
   - destruct (nth_error (s_jobs s) k) as [j|]; [|cbn; repeat split; try lia; intros H; discriminate H].
     destruct (j_done j); [cbn; repeat split; try lia; intros H; discriminate H|].
-    destruct (exec_payload j _ _ args kw); [destruct acc|]; cbn; rewrite ?app_length; cbn;
+    destruct (exec_payload j _ _ args kw); [destruct acc as [|[|[|[|?]]]]|]; cbn; rewrite ?app_length; cbn;
       repeat split; try lia; intros H; discriminate H.
+Qed.
+
+(* one execution, whatever the server answers (accepts, refuses, or registers the request and loses the answer):
+   at most one request reaches the server and at most one remote job exists afterwards *)
+Theorem exec_at_most_one s k args kw answer :
+  let s' := fst (step s (EExec k args kw answer)) in
+  length (s_net s') <= S (length (s_net s)) /\ s_created s' <= S (s_created s) /\
+  (s_created s' = S (s_created s) -> length (s_net s') = S (length (s_net s))).
+Proof.
+  cbn zeta. destruct (step_counts s (EExec k args kw answer)) as (A & B & _). rewrite A, B.
+  destruct (snd (step s (EExec k args kw answer))); cbn; lia.
 Qed.
 
 (* whole histories *)
@@ -549,7 +561,7 @@ Theorem from_local_old_code_refuted :
   exists lp, wf_her lp /\ msize lp <> 0 /\ (forall st, p_in lp = Some st -> length st = p_size lp) /\
     from_local_old_code lp = Err XAssert 1.
 Proof.
-  exists (mkproc (mkcirc 0 4 [0; 1; 2; 3]) [] [] [(3, 1)] (Some [1; 0; 0; 1]) None None (Some 1)).
+  exists (mkproc (mkcirc 0 4 [0; 1; 2; 3] []) [] [] [(3, 1)] (Some [1; 0; 0; 1]) None None (Some 1)).
   split; [split; [repeat constructor; intros []; contradiction | repeat constructor]|].
   split; [cbn; discriminate|]. split; [intros st H; inversion H; reflexivity|]. vm_compute. reflexivity.
 Qed.
@@ -783,4 +795,22 @@ Proof.
   apply F4.
   - change (p_size rl) with (p_size lp). unfold sigma. rewrite <- Lm. apply index_of_lt. exact Hk.
   - unfold rl, relabelled; cbn [p_her]. apply her_find_relabelled; [intros a Ha; apply herald_in_order; exact Ha | exact Hk | exact H].
+Qed.
+
+(* ------------------------------------------------------------------ parameter values between two jobs *)
+Theorem job_circuit_is_current pf p shots its gen m j : create_job pf p shots its gen m = Ok j ->
+  v_circ (describe (j_pl j)) = Some (p_circ p).
+Proof.
+  intros C. destruct (create_job_ok _ _ _ _ _ _ _ C) as ((prim & _ & D & _) & B & _).
+  rewrite D, B. reflexivity.
+Qed.
+
+Theorem job_after_set_value pf p n v p' shots its gen m j :
+  apply_op p (OParam n v) = Ok p' -> create_job pf p' shots its gen m = Ok j ->
+  exists c, v_circ (describe (j_pl j)) = Some c /\ c_id c = c_id (p_circ p) /\ c_lab c = c_lab (p_circ p) /\
+    c_vals c = vput n v (c_vals (p_circ p)).
+Proof.
+  cbn [apply_op]. destruct (existsb (Nat.eqb n) (p_pnames p)); [|intros H; discriminate H].
+  intros H; inversion H; subst; clear H. intros C. rewrite (job_circuit_is_current _ _ _ _ _ _ _ C).
+  eexists. split; [reflexivity|]. cbn. repeat split.
 Qed.
